@@ -837,6 +837,13 @@ impl Session {
             stream_id,
             data.len()
         );
+        // One frame carries at most 65535 payload bytes: split larger chunks
+        const MAX_FRAME_PAYLOAD: usize = u16::MAX as usize;
+        let mut data = data;
+        while data.len() > MAX_FRAME_PAYLOAD {
+            let chunk = data.split_to(MAX_FRAME_PAYLOAD);
+            self.write_frame(Frame::data(stream_id, chunk)).await?;
+        }
         let frame = Frame::data(stream_id, data);
         self.write_frame(frame).await
     }
